@@ -82,6 +82,16 @@ def compare(ra, rb, rtol, circ=False, atol=0.0, circ_atol=1e-6, exact=False):
 CANCEL = {"dspr": 1.0, "dpspr": 1.0, "swe": 0.02, "sw": 0.02, "gw": None}
 
 
+def cancel_rtol(name, v, f32):
+    """Relative tolerance for sqrt(small difference) quantities from the size of the difference:
+    v = sqrt(c*q) with q = 1 - r (spreads, in degrees) or a moment ratio minus one (widths); an
+    error eps in r becomes eps/(2q) relative in v."""
+    eps = 4e-7 if f32 else 1e-12
+    v = np.asarray(v, dtype="float64")
+    q = (np.radians(v) ** 2) / 2.0 if name in ("dspr", "dpspr") else v ** 2
+    return 4.0 * eps / np.maximum(q, 1e-12) + 8.0 * eps
+
+
 def compare_cancel(ra, rb, f32, name, rt=None):
     """Quantities of the form sqrt(small difference): decided only where the value is well above
     the rounding floor; returns (None, None) when nothing is decidable."""
@@ -97,7 +107,7 @@ def compare_cancel(ra, rb, f32, name, rt=None):
     m = np.isfinite(a) & np.isfinite(b) & (a > floor) & (b > floor)
     if not m.any():
         return None, None
-    rt = rt or (5e-3 if f32 else 1e-6)
+    rt = rt or cancel_rtol(name, a[m], f32)
     bad = np.abs(a[m] - b[m]) > rt * np.abs(a[m])
     if bad.any():
         return False, {"reason": "values differ", "a": a, "b": b}
